@@ -69,5 +69,42 @@ UNITS = [
          spec=SPEC, traits=[(c05.D + '{trait Dot}', c05.DOT_TRAIT_DECL)], preludes=PRE, broadcast=BC, level='L1',
          fingerprints=[(VEC + '{impl FromIterator<f64> for Vector}::from_iter', '{ Self { v: Vec::from_iter(iter) } }')],
          notes='multivariate normal pdf / ln_pdf equal exp(-q/2) / sqrt((2 pi)^k det) resp. its logarithm, q the quadratic form of x - mean with the cached inverse; '
-               'dimension mismatch rejected; the object invariant (k x k inverse, det > 0) is a hypothesis established by MVN::new, which is not under contract'),
+               'dimension mismatch rejected; the object invariant is what MVN::new establishes (unit C02_mvn_new) plus the hypothesis det > 0'),
 ]
+
+# ---------------------------------------------------------------- MVN::new: composition of the proved Matrix contracts (cholesky, inv, det)
+from contracts import C11tri as _t
+from contracts import C11rec as _rec
+from contracts import C01solve as _s1
+from contracts import C01m as _c01m
+
+IVM = '<V as vstd::std_specs::convert::IntoSpec<Vector>>'
+IMM = '<M as vstd::std_specs::convert::IntoSpec<Matrix>>'
+M_ = IVM + '::into_spec(mean)'
+C_ = IMM + '::into_spec(covariance_matrix)'
+NEW_VALID = ('({c}.nrows == {c}.ncols && sym_eps({c}.data.v@, {c}.nrows as int)) && {m}.v@.len() == {c}.ncols '
+             '&& pd_test({c}.data.v@, {c}.nrows as int) && no_bad_pivot({c}.data.v@, {c}.nrows as int)').format(c=C_, m=M_)
+NEW_SPEC = r'''
+/// what MVN::new stores: the arguments, a Cholesky factor of the covariance, its column-by-column LU inverse and its LU determinant
+pub open spec fn mvn_built(s: MVN, m: Vector, c: Matrix) -> bool {
+    let k = c.nrows as int;
+    s.mean == m && s.covariance_matrix == c
+    && s.decomposed_covariance_matrix.nrows == c.nrows && s.decomposed_covariance_matrix.ncols == c.ncols && wf(s.decomposed_covariance_matrix)
+    && chol_rows(c.data.v@, s.decomposed_covariance_matrix.data.v@, k, k) && chol_zero(s.decomposed_covariance_matrix.data.v@, k, k, 0)
+    && s.inverse_covariance_matrix.nrows == c.nrows && s.inverse_covariance_matrix.ncols == c.nrows && wf(s.inverse_covariance_matrix)
+    && minverse_of(c.data.v@, k, s.inverse_covariance_matrix.data.v@)
+    && is_det(c, s.covariance_determinant)
+}
+'''
+mvn_new = Fn(MV + '{impl MVN}::new', ret='r', level='L1', valid=NEW_VALID,
+             panics={1: 'REJECT: ({c}.nrows == {c}.ncols && sym_eps({c}.data.v@, {c}.nrows as int))'.format(c=C_),
+                     2: 'REJECT: {m}.v@.len() == {c}.ncols'.format(m=M_, c=C_)},
+             requires=['C02.mvn.new.obeys:: %s::obeys_into_spec() && %s::obeys_into_spec()' % (IVM, IMM),
+                       'C02.mvn.new.wf:: wf(%s) && %s.nrows > 0 && %s.nrows * %s.nrows <= i32max()' % (C_, C_, C_, C_)],
+             ensures=['C02.mvn.new.valid:: ' + NEW_VALID.replace(' && no_bad_pivot({c}.data.v@, {c}.nrows as int)'.format(c=C_), ''),
+                      'C02.mvn.new.built:: mvn_built(r, %s, %s)' % (M_, C_),
+                      'C02.mvn.new.invariant:: rv(r.covariance_determinant) > 0real ==> mvn_inv(r)'])
+UNITS.append(Unit('C02_mvn_new', ('C02', 'C11'), [mvn_new], use=_core_all + [c11m.msym, c11m.mchol, _c01m.minv, _rec.det], types=core.TYPES + [MV + '{struct MVN}'], type_spec=core.TYPE_SPEC,
+                  spec=SPEC + _c01m.SPEC + _c01m.MINV_SPEC + _rec.PAR_SPEC + _rec.DET_SPEC + NEW_SPEC, preludes=PRE, broadcast=BC, level='L1', rlimit=100,
+                  notes='MVN::new stores its arguments, the Cholesky factor (L L^T = covariance on the lower triangle, positive diagonal), the column-by-column LU inverse and the LU determinant of the covariance; '
+                        'asymmetric / mismatched / not positive definite input is rejected; the object invariant of pdf / ln_pdf follows except for the sign of the determinant'))
